@@ -33,7 +33,7 @@ pub fn strategy(max_steps: usize) -> impl Strategy<Value = FifoCase> {
     let step = prop_oneof![
         10 => (1u8..6, 0u8..240).prop_map(|(n, len)| FStep::Flush { n, len }),
         5 => (0u8..40).prop_map(|secs| FStep::Clock { secs }),
-        5 => (0u8..8, 0u8..8).prop_map(|(limit, ttl)| FStep::Fifo { limit, ttl }),
+        5 => (0u8..10, 0u8..8).prop_map(|(limit, ttl)| FStep::Fifo { limit, ttl }),
         1 => Just(FStep::Reopen),
     ];
     (
@@ -169,16 +169,24 @@ fn run_inner(case: &FifoCase, root: &Path) -> Result<Stats, (usize, String)> {
                         .min()
                         .unwrap_or(0)
                 };
+                // the tree's own public measure of its size (what "within its size limit" refers to);
+                // `total` (stat of the files) is an upper bound of it
+                let ds = tree.disk_space();
                 let limit_bytes: u64 = match limit {
                     0 => 0,
-                    1 => total / 2,
-                    2 => total,
-                    3 => total + 1,
+                    1 => ds / 2,
+                    2 => ds,
+                    3 => ds + 1,
                     4 => u64::MAX,
-                    5 => total.saturating_sub(smallest),
+                    5 => ds.saturating_sub(smallest),
                     6 => 1,
-                    _ => total.saturating_mul(2),
+                    7 => ds.saturating_mul(2),
+                    8 => ds.saturating_sub(1),
+                    _ => total,
                 };
+                if ds == limit_bytes {
+                    stats.bump("f.limit_exactly_at_size");
+                }
                 let now_before = now_ns();
                 let oldest_age_s = before
                     .iter()
@@ -227,10 +235,10 @@ fn run_inner(case: &FifoCase, root: &Path) -> Result<Stats, (usize, String)> {
                 }
                 if !removed.is_empty()
                     && !before.iter().any(possibly_expired)
-                    && total <= limit_bytes
+                    && ds <= limit_bytes
                 {
                     return Err(err(format!(
-                        "FIFO removed tables {:?} although the tree ({total} bytes on disk) is within its limit {limit_bytes} and nothing exceeded the TTL {ttl_s:?}",
+                        "FIFO removed tables {:?} although the tree (disk_space() = {ds} bytes, {total} bytes of files) is within its limit {limit_bytes} and nothing exceeded the TTL {ttl_s:?}",
                         removed.iter().map(|t| t.id).collect::<Vec<_>>()
                     )));
                 }
